@@ -5,6 +5,7 @@ import warnings
 import numpy as np
 
 from .. import gen
+from .. import forms as vforms
 from ..oracles import matching as OM
 from ..util import scale_of
 from .C01 import gen_pair
@@ -134,6 +135,12 @@ def run_case(ctx, k, rng):
                 ok = ok and abs(float(vi) - v) <= tol
                 info["int"] = vi
                 ctx.note("int-form-cases")
+            if A.size and B.size:
+                (fa, na), (fb, nb) = vforms.relayout(rng, A), vforms.relayout(rng, B)
+                vf = call(ctx, fa, fb)
+                ok = ok and abs(float(vf) - v) <= 1e-12 * scale_of(A, B)
+                info["layout"] = [na, nb, vf]
+                ctx.note("layout-form-cases")
             ctx.check("list/int forms agree", ok, base=v, **info)
         except Exception as e:
             ctx.exception("list/int forms agree", e)
